@@ -48,10 +48,20 @@ var targets = []target{
 	{"input_spliter.go", "isRootBlockBeginning"},
 	{"input_spliter.go", "isSharpRootRow"},
 	{"node_generator.go", "nodeGenerator.handleErr"},
+	{"node.go", "Node.hasChild"},
+	{"node.go", "Node.isRoot"},
+	{"node.go", "Node.findChildByText"},
+	{"file_considerer.go", "fileConsiderer.isFile"},
 }
 
+// struct types that are handled through pointers which the translated functions never find nil (a nil
+// dereference is a panic, outside the translation): `*Node` parameters and receivers are plain `Node` values;
+// a `*Node` result is `Option Node`.
+var derefStructs = map[string]bool{"Node": true}
+
 // struct types whose values are translated (all their fields of supported type; others dropped)
-var structFiles = map[string]string{"Parser": "markdown/parser.go", "Markdown": "markdown/markdown.go", "inputFormatError": "node_generator.go", "nodeGenerator": "node_generator.go"}
+var structFiles = map[string]string{"Parser": "markdown/parser.go", "Markdown": "markdown/markdown.go", "inputFormatError": "node_generator.go", "nodeGenerator": "node_generator.go",
+	"Node": "node.go", "branch": "node.go", "fileConsiderer": "file_considerer.go"}
 
 type fnInfo struct {
 	decl    *ast.FuncDecl
@@ -112,6 +122,9 @@ func goTypeToLean(t *tr, e ast.Expr) (string, bool) {
 	case *ast.StarExpr:
 		if id, ok := x.X.(*ast.Ident); ok {
 			if _, ok := structFiles[id.Name]; ok {
+				if derefStructs[id.Name] {
+					return id.Name, true
+				}
 				return "Option " + id.Name, true
 			}
 		}
@@ -123,6 +136,25 @@ func goTypeToLean(t *tr, e ast.Expr) (string, bool) {
 		}
 	}
 	return "", false
+}
+
+// resultType: like goTypeToLean, but a pointer to a struct is optional (nil = none) also for derefStructs
+func resultType(t *tr, e ast.Expr) (string, bool) {
+	if st, ok := e.(*ast.StarExpr); ok {
+		if id, ok := st.X.(*ast.Ident); ok && derefStructs[id.Name] {
+			return "Option " + id.Name, true
+		}
+	}
+	return goTypeToLean(t, e)
+}
+
+func isSelfPointer(e ast.Expr, name string) bool {
+	st, ok := e.(*ast.StarExpr)
+	if !ok {
+		return false
+	}
+	id, ok := st.X.(*ast.Ident)
+	return ok && id.Name == name
 }
 
 func bytesLit(s string) string {
@@ -280,6 +312,9 @@ func (t *tr) collectDecls(file string, af *ast.File) {
 						if structFiles[s.Name.Name] == file {
 							var fields [][2]string
 							for _, f := range st.Fields.List {
+								if isSelfPointer(f.Type, s.Name.Name) {
+									continue // a parent link: the translation is of the tree downwards
+								}
 								lt, ok := goTypeToLean(t, f.Type)
 								if !ok {
 									continue // sync.RWMutex, *Parser, ...: not part of the translated state
@@ -367,12 +402,38 @@ func (t *tr) callName(sc *scope, fun ast.Expr) (kind, name string) {
 			if sc != nil && sc.fn != nil && p.Name == sc.fn.rname && sc.fn.recv != "" {
 				return "method", f.Sel.Name
 			}
+			if sc != nil && sc.fn != nil {
+				if ty := paramStruct(sc.fn, p.Name); ty != "" {
+					return "pmethod:" + ty, f.Sel.Name
+				}
+			}
 			if p.Name == "md" || p.Name == "markdown" {
 				return "func", f.Sel.Name
 			}
 		}
 	}
 	return "", ""
+}
+
+// paramStruct: the struct type of a parameter declared as T or *T
+func paramStruct(f *fnInfo, name string) string {
+	for _, p := range f.decl.Type.Params.List {
+		for _, n := range p.Names {
+			if n.Name != name {
+				continue
+			}
+			e := p.Type
+			if st, ok := e.(*ast.StarExpr); ok {
+				e = st.X
+			}
+			if id, ok := e.(*ast.Ident); ok {
+				if _, ok := structFiles[id.Name]; ok {
+					return id.Name
+				}
+			}
+		}
+	}
+	return ""
 }
 
 var stringsFns = map[string]int{"HasPrefix": 2, "HasSuffix": 2, "Cut": 2, "Trim": 2, "TrimLeft": 2, "TrimRight": 2, "TrimPrefix": 2, "TrimSuffix": 2, "TrimSpace": 1, "Split": 2, "Count": 2, "ContainsAny": 2}
@@ -504,6 +565,16 @@ func (t *tr) expr(sc *scope, e ast.Expr) string {
 				return "(" + id(name) + " " + strings.Join(args, " ") + ")"
 			}
 			return t.fail(x.Pos(), "call of %s", name)
+		default:
+			if strings.HasPrefix(kind, "pmethod:") {
+				ty := strings.TrimPrefix(kind, "pmethod:")
+				g, ok := t.fns[ty+"."+name]
+				if !ok || g.mutates {
+					return t.fail(x.Pos(), "method %s.%s is not translated (or assigns to its receiver)", ty, name)
+				}
+				recvExpr := t.expr(sc, x.Fun.(*ast.SelectorExpr).X)
+				return "(" + ty + "." + id(name) + " " + recvExpr + strings.Join(append([]string{""}, args...), " ") + ")"
+			}
 		case "method":
 			g, ok := t.fns[sc.fn.recv+"."+name]
 			if !ok {
@@ -828,8 +899,20 @@ func (t *tr) block(sc *scope, stmts []ast.Stmt, ind string) string {
 		return t.assign(sc, x, ind) + t.block(sc, rest, ind)
 	case *ast.ReturnStmt:
 		var vals []string
-		for _, r := range x.Results {
-			vals = append(vals, t.expr(sc, r))
+		for i, r := range x.Results {
+			v := t.expr(sc, r)
+			// a value returned where the result type is a pointer handled as Option: `return child` is `some child`
+			if idt, ok := r.(*ast.Ident); ok && idt.Name != "nil" && !t.sentinels[idt.Name] && sc.fn.decl.Type.Results != nil {
+				rl := sc.fn.decl.Type.Results.List
+				if i < len(rl) {
+					if st, ok := rl[i].Type.(*ast.StarExpr); ok {
+						if sid, ok := st.X.(*ast.Ident); ok && derefStructs[sid.Name] {
+							v = "(some " + v + ")"
+						}
+					}
+				}
+			}
+			vals = append(vals, v)
 		}
 		r := t.retExpr(sc, vals)
 		if sc.inLoop {
@@ -936,9 +1019,20 @@ func (t *tr) block(sc *scope, stmts []ast.Stmt, ind string) string {
 		if sc.inLoop {
 			return ind + t.fail(x.Pos(), "nested loop") + "\n"
 		}
-		coll, ok := x.X.(*ast.Ident)
-		if !ok || t.slices[coll.Name] == nil {
-			return ind + t.fail(x.Pos(), "range over something that is not a package-level slice of strings") + "\n"
+		var collExpr string
+		switch cx := x.X.(type) {
+		case *ast.Ident:
+			if t.slices[cx.Name] == nil {
+				return ind + t.fail(x.Pos(), "range over something that is not a package-level slice of strings or a slice field") + "\n"
+			}
+			collExpr = id(cx.Name)
+		case *ast.SelectorExpr:
+			if _, ok := cx.X.(*ast.Ident); !ok {
+				return ind + t.fail(x.Pos(), "range over a nested selector") + "\n"
+			}
+			collExpr = t.expr(sc, cx)
+		default:
+			return ind + t.fail(x.Pos(), "range over something that is not a package-level slice of strings or a slice field") + "\n"
 		}
 		if k, ok := x.Key.(*ast.Ident); x.Key != nil && (!ok || k.Name != "_") {
 			return ind + t.fail(x.Pos(), "range with an index variable") + "\n"
@@ -964,7 +1058,7 @@ func (t *tr) block(sc *scope, stmts []ast.Stmt, ind string) string {
 		if st[0] == "unit_" {
 			init = "()"
 		}
-		b.WriteString(ind + "match Go.forRange " + id(coll.Name) + " " + init + " (fun " + id(v.Name) + " st_ =>\n")
+		b.WriteString(ind + "match Go.forRange " + collExpr + " " + init + " (fun " + id(v.Name) + " st_ =>\n")
 		b.WriteString(unpack(st, "st_", ind+"    "))
 		b.WriteString(t.block(sub, x.Body.List, ind+"    "))
 		b.WriteString(ind + "  ) with\n")
@@ -1182,7 +1276,7 @@ func (t *tr) render() string {
 		b.WriteString("\n")
 	}
 	b.WriteString("deriving Repr, DecidableEq, BEq\n\n")
-	// structs
+	// structs, each after the structs its fields mention
 	var sn []string
 	for s := range t.structs {
 		if !t.errStruct[s] {
@@ -1190,15 +1284,55 @@ func (t *tr) render() string {
 		}
 	}
 	sort.Strings(sn)
-	for _, s := range sn {
-		b.WriteString("structure " + s + " where\n")
-		if len(t.structs[s]) == 0 {
-			b.WriteString("  mk ::\n")
+	emitted := map[string]bool{}
+	mentions := func(ty, name string) bool {
+		for _, w := range strings.FieldsFunc(ty, func(r rune) bool { return r == ' ' || r == '(' || r == ')' }) {
+			if w == name {
+				return true
+			}
 		}
-		for _, f := range t.structs[s] {
-			b.WriteString("  " + id(f[0]) + " : " + f[1] + "\n")
+		return false
+	}
+	for len(emitted) < len(sn) {
+		progress := false
+		for _, s := range sn {
+			if emitted[s] {
+				continue
+			}
+			ready, recursive := true, false
+			for _, f := range t.structs[s] {
+				for _, o := range sn {
+					if mentions(f[1], o) {
+						if o == s {
+							recursive = true
+						} else if !emitted[o] {
+							ready = false
+						}
+					}
+				}
+			}
+			if !ready {
+				continue
+			}
+			b.WriteString("structure " + s + " where\n")
+			if len(t.structs[s]) == 0 {
+				b.WriteString("  mk ::\n")
+			}
+			for _, f := range t.structs[s] {
+				b.WriteString("  " + id(f[0]) + " : " + f[1] + "\n")
+			}
+			if recursive {
+				b.WriteString("\n") // a recursive structure: no instances are derived
+			} else {
+				b.WriteString("deriving Repr, DecidableEq, BEq\n\n")
+			}
+			emitted[s] = true
+			progress = true
 		}
-		b.WriteString("deriving Repr, DecidableEq, BEq\n\n")
+		if !progress {
+			t.errs = append(t.errs, "struct types depend on each other in a cycle")
+			break
+		}
 	}
 	// constants
 	var cn []string
@@ -1292,7 +1426,7 @@ func (t *tr) function(f *fnInfo) string {
 	var rts []string
 	if f.decl.Type.Results != nil {
 		for _, r := range f.decl.Type.Results.List {
-			lt, ok := goTypeToLean(t, r.Type)
+			lt, ok := resultType(t, r.Type)
 			if !ok {
 				lt = t.fail(r.Pos(), "result type")
 			}
